@@ -10,13 +10,13 @@ ALGOS = ["dfa_minimize", "dfa_quotient", "dfa_hopfcroft"]
 def tasks(tier, seed):
     hs = gen.hashseeds(tier, seed)
     if tier == "quick":
-        ts = gen.dfa_src_tasks(3, "ab", 12, pools=(0, 1, 2, 3, 4, 5, 6, 7))
+        ts = gen.dfa_src_tasks(3, "ab", 12, pools=(0, 1, 2, 3, 4, 5, 6, 7, 8))
         ts += gen.dfa_src_tasks(2, "ab", 1)
         ts += [{"kind": "rnd_dfa", "count": 500, "seed": seed * 50 + i, "maxk": 6} for i in range(3)]
         ts += [{"kind": "late_split_dfa", "count": 8, "seed": seed * 50 + i} for i in range(6)]
     else:
-        ts = gen.dfa_src_tasks(3, "ab", 16, pools=(0, 1, 2, 3, 4, 5, 6, 7))
-        ts += gen.dfa_src_tasks(4, "ab", 64, stride=41, pools=(0, 1, 2, 3, 4, 5, 6, 7))
+        ts = gen.dfa_src_tasks(3, "ab", 16, pools=(0, 1, 2, 3, 4, 5, 6, 7, 8))
+        ts += gen.dfa_src_tasks(4, "ab", 64, stride=41, pools=(0, 1, 2, 3, 4, 5, 6, 7, 8))
         ts += gen.dfa_src_tasks(4, "a", 4, pools=(0, 5))
         ts += [{"kind": "rnd_dfa", "count": 2000, "seed": seed * 50 + i, "maxk": 7} for i in range(32)]
         ts += [{"kind": "late_split_dfa", "count": 20, "seed": seed * 50 + i} for i in range(16)]
